@@ -307,7 +307,7 @@ class RiskReplay:
 def selftest_values(ctx: Ctx, recs: List[Dict[str, Any]]) -> None:
     """Binding demonstration: corrupt one expected value; the replay must reject it."""
     probe = Ctx.__new__(Ctx)
-    probe.__dict__.update({"violations": [], "findings": [], "known_hits": {}, "evaluations": 0, "distinct": set(), "sections": {}, "skipped": {}})
+    probe.__dict__.update({"_per_key": {}, "violations": [], "findings": [], "known_hits": {}, "evaluations": 0, "distinct": set(), "sections": {}, "skipped": {}})
     sub = [json.loads(json.dumps(r)) for r in recs if len(r["x"]) == 3][:40]
     sub[5]["es"][2] = [sub[5]["es"][2][0] + sub[5]["es"][2][1], sub[5]["es"][2][1]]   # ES + 1
     RiskReplay(probe, "").replay_values(sub)
